@@ -272,3 +272,17 @@ PROPS["C10"] = {
                   T("TestC10KnownDockerNull", {"checks": 1})],
     }],
 }
+
+PROPS["C17"] = {
+    "level": "exploration",
+    "needs_sx_binary": True,
+    "kit_tools": ["nsrun"],
+    "assumptions": ["network namespaces with veth pairs and tun devices stand for host network configurations (dummy, vlan and tunnel devices do not exist in this kernel; policy routing is not generated)",
+                    "the configuration is judged as the kernel reports it inside the namespace (interface order, address order, MACs)",
+                    "kernel-originated frames (IPv6 RS/MLD) are recognised by ethertype and ignored; --srcmac together with a MAC-less device is not generated (left open by the statement)"],
+    "max_parallel": 16,
+    "units": [{
+        "pkg": "command",
+        "tests": [T("TestC17Netns", {"checks": 12, "shards": 16}, {"checks": 200, "shards": 16})],
+    }],
+}
